@@ -1,10 +1,62 @@
-(* C14 property theorems (statements closed by [exact]); filled as the proofs land. *)
-From Tbfmm Require Import Base.Prelude Mem.LayoutDefs.
+(* C14 — group buffers are self-describing flat memory.
+   Statements only; proofs in Mem/LayoutProofs.v. *)
+From Tbfmm Require Import Base.Prelude Mem.LayoutDefs Mem.LayoutProofs.
 Local Open Scope Z_scope.
 
+(* GetLeadingDim rounds up to the alignment *)
+Theorem C14_leading_spec : forall a sz n, 0 < a -> 0 <= sz * n ->
+  sz * n <= leading a sz n < sz * n + a /\ (a | leading a sz n).
+Proof. exact leading_spec. Qed.
+Print Assumptions C14_leading_spec.
+
+(* every element accessor stays inside its block (all four kinds, any element size, any item count) *)
+Theorem C14_accessor_in_block : forall a k off n i row, 0 < a -> 0 < elem_size k -> valid_elem k n i row ->
+  off <= elem_offset a k off n i row /\ elem_offset a k off n i row + elem_size k <= off + block_bytes a k n.
+Proof. exact accessor_in_block. Qed.
+Print Assumptions C14_accessor_in_block.
+
+(* two different elements of one block never share a byte *)
+Theorem C14_accessors_disjoint : forall a k off n i row i' row', 0 < a -> 0 < elem_size k ->
+  valid_elem k n i row -> valid_elem k n i' row' -> (i, row) <> (i', row') ->
+  elem_offset a k off n i row + elem_size k <= elem_offset a k off n i' row'
+  \/ elem_offset a k off n i' row' + elem_size k <= elem_offset a k off n i row.
+Proof. exact accessors_disjoint. Qed.
+Print Assumptions C14_accessors_disjoint.
+
+(* blocks of different kinds never overlap, start at aligned offsets, and end before the trailer *)
+Theorem C14_blocks_layout : forall a ks ns b b', 0 < a -> sizes_ok ks ns -> (b < b' < length ks)%nat ->
+  nth b (offsets a ks ns) 0 + block_bytes a (nth b ks (Scalar 1)) (nth b ns 0) <= nth b' (offsets a ks ns) 0.
+Proof. exact blocks_layout. Qed.
+Print Assumptions C14_blocks_layout.
+Theorem C14_blocks_before_trailer : forall a ks ns b, 0 < a -> sizes_ok ks ns -> (b < length ks)%nat ->
+  0 <= nth b (offsets a ks ns) 0 /\
+  nth b (offsets a ks ns) 0 + block_bytes a (nth b ks (Scalar 1)) (nth b ns 0) <= blocks_end a ks ns.
+Proof. exact blocks_before_trailer. Qed.
+Print Assumptions C14_blocks_before_trailer.
+Theorem C14_offsets_aligned : forall a ks ns, 0 < a -> sizes_ok ks ns -> Forall (fun o => (a | o)) (offsets a ks ns).
+Proof. exact offsets_aligned. Qed.
+Print Assumptions C14_offsets_aligned.
+
+(* in every state reachable by resets of arbitrary sizes (grow, shrink-then-reuse): the allocation is large enough, the trailer
+   lies after all blocks and inside the allocation, its 2*nb words do not overlap *)
+Theorem C14_trailer_in_alloc : forall a ks st ns, 0 < a -> reachable a ks st -> sizes_ok ks ns ->
+  let st' := reset a ks st ns in
+  total a ks ns <= mb_alloc st' /\ blocks_end a ks ns <= offs_pos ks (mb_alloc st') 0 /\
+  forall k, 0 <= k < nbk ks ->
+    offs_pos ks (mb_alloc st') k + 8 <= items_pos ks (mb_alloc st') 0 /\ items_pos ks (mb_alloc st') k + 8 <= mb_alloc st'.
+Proof. exact trailer_in_alloc. Qed.
+Print Assumptions C14_trailer_in_alloc.
+
+(* a byte copy viewed through the raw-memory constructor sees exactly the counts and offsets that were written, hence computes
+   the same element addresses (relative to its own base) as the original *)
+Theorem C14_view_roundtrip : forall a ks st ns, 0 < a -> reachable a ks st -> sizes_ok ks ns ->
+  init_header ks (reset a ks st ns) = (ns, offsets a ks ns).
+Proof. exact view_roundtrip. Qed.
+Print Assumptions C14_view_roundtrip.
+
+(* non-vacuity: the particle-group layout after a shrink-then-reuse *)
 Example C14_example :
   let ks := [Scalar 32; Vector 40; Vector 8; MultiR 8 5] in
   let st := reset 64 ks (reset 64 ks mb_empty [1;3;7;7]) [1;1;2;2] in
   mb_alloc st = 640 /\ init_header ks st = ([1;1;2;2], [0;64;128;192]).
 Proof. vm_compute. split; reflexivity. Qed.
-Print Assumptions C14_example.
